@@ -117,7 +117,7 @@ def record_history(ptn, seed, quick):
                 tr.append(dict(ev='heff2', psi=tens(psi), op=tens(op), site=i + 1, At0=snap_array_gauss(A0, 'A0'), At1=snap_array_gauss(A1, 'A1'),
                                Wm=snap_array_gauss(Wm, 'Wm'), Am=snap_array_gauss(Am, 'Am'), out=snap_array_gauss(out2, 'heff2')))
         if digest_arrays(inputs) != dig0:
-            tr.append(dict(ev='raise', exc='an argument of a pure operation (vdot / norm / averages / blocks / local operators) was modified'))
+            tr.append(dict(ev='flag', ok=False, foreign=True, what='an argument of a pure operation (vdot / norm / averages / blocks / local operators) was modified'))
         # a history: one argument is overwritten in place by the user, then the same quantities are asked for again
         if rng.random() < 0.5:
             cfac = int(rng.choice([2, -1, 3]))
@@ -158,7 +158,7 @@ def record_history(ptn, seed, quick):
         tr.append(dict(ev='cstep_left', A=snap_array_gauss(A, 'A'), B=snap_array_gauss(B, 'B'), X=snap_array_gauss(L2, 'L'),
                        out=snap_array_gauss(opn.contraction_step_left(A, B, L2), 'out')))
         if digest_arrays(direct) != dig1:
-            tr.append(dict(ev='raise', exc='a transfer contraction step modified one of its arguments'))
+            tr.append(dict(ev='flag', ok=False, foreign=True, what='a transfer contraction step modified one of its arguments'))
     except OffLattice as ex:
         tr.append(dict(ev='raise', exc=f'OffLattice: {ex}'))
     except BaseException as ex:  # noqa
